@@ -115,8 +115,8 @@ def random_patches(
     NOTE: The function utilizes randomness. For reproducibility, the seed is fixed.
 
     """
-    # Fix seed for reproducibility
-    np.random.seed(42)
+    # Fix seed for reproducibility (local generator; the global state is left untouched)
+    random_state = np.random.RandomState(42)
 
     # Determine indices of mask
     larger_mask = np.zeros((mask.shape[0] + width, mask.shape[1] + width), dtype=bool)
@@ -140,7 +140,7 @@ def random_patches(
     # Randomly select patches
     num_eligible_points = len(restricted_indices[0])
     random_ids = np.unique(
-        (np.random.rand(num_patches) * num_eligible_points).astype(int)
+        (random_state.rand(num_patches) * num_eligible_points).astype(int)
     )
     patch_indices = np.transpose(
         tuple([restricted_indices[i][random_ids] for i in range(len(indices))])
